@@ -2,7 +2,7 @@
    (The quartic degree has its own representation IntOfLogPoly4; its statements are at the end.) *)
 From Coq Require Import List ZArith Reals Lra Lia.
 From Coquelicot Require Import Coquelicot.
-Require Import PP.Expr PP.RealOps PP.PolyFacts PP.ExpTail PP.Gen.Kernels PP.Proofs.QuarticForm.
+Require Import PP.Expr PP.RealOps PP.PolyFacts PP.ExpTail PP.Gen.Kernels PP.Proofs.QuarticForm PP.Proofs.QuarticIntegral.
 (* the binary64-level statements of C09 live in C09F.v (no real-analysis imports); they are re-exported from here *)
 Require Export PP.Props.C09F.
 Import ListNotations.
@@ -252,6 +252,17 @@ Theorem C09_Log4_deriv : forall c0 c1 c2 c3 c4 k t : R, 0 < t ->
                             (((((- c0 + c1) / 2 - c2) / 3 + c3) / 4 - c4) * 24)) t
             (polyval [c0; c1; c2; c3; c4] (ln t)).
 Proof. intros. apply quartic_closed_deriv. exact H. Qed.
+
+(* the constructor of the quartic degree: the regenerated Log<Poly4>::integral IS (as a term) Log<Poly4>::indefinite with the additive
+   constant shifted by knot.y - evaluate(indefinite)(knot.x) - for every knot, with no special treatment of any abscissa *)
+Theorem C09_Log4_integral_shape :
+  k_Log_Poly4__integral =
+  Add (hd (Lit 0) k_Log_Poly4__indefinite) (Sub (Var 6) (ErrorBound.subst (k_Log_Poly4__indefinite ++ [Var 5]) e_Q4)) :: tl k_Log_Poly4__indefinite.
+Proof. exact Log4_integral_shape. Qed.
+(* hence the returned form, evaluated by the crate's evaluator at knot.x, is knot.y *)
+Theorem C09_Log4_knot : forall c0 c1 c2 c3 c4 kx ky : R,
+  eval ROps (evals ROps [c0; c1; c2; c3; c4; kx; ky] k_Log_Poly4__integral ++ [kx]) e_Q4 = ky.
+Proof. exact Log4_knot. Qed.
 
 (* the evaluator of the quartic representation (regenerated IntOfLogPoly4::evaluate) computes that closed form: outside the
    series window exactly, inside it with the exponential tail replaced by its 16-term series (whose truncation error is
